@@ -3,7 +3,7 @@
    stored under [id]; [extent] = the MIN(start)/MAX(end) query of _update_relations; [derive] the
    derived features it writes; [insert_derived] their insertion (merge on collision). *)
 From GV Require Import Base.Prelude Base.PyStr Model.Bins Model.DB Model.Parser Model.Import Model.GtfSpec
-  Proofs.C03Proofs Proofs.C03End Proofs.C03Ids.
+  Proofs.C03Proofs Proofs.C03End Proofs.C03Ids Proofs.C03Pop.
 Open Scope Z_scope.
 
 (* no line is ever its own parent or child — for every line, key and configuration *)
@@ -128,3 +128,37 @@ Print Assumptions C03_both_disabled. Print Assumptions C03_flags. Print Assumpti
 Print Assumptions C03_explicit_kept. Print Assumptions C03_derived_new.
 Print Assumptions C03_inference_appends. Print Assumptions C03_transcript_inferred. Print Assumptions C03_gene_inferred.
 Print Assumptions C03_nothing_else_derived.
+
+(* THE WHOLE IMPORT, FROM THE INPUT LINES.  A GTF file of ordinary lines (any featuretypes other than gene/transcript, any
+   number, any order), each carrying a transcript id and a gene id, both kinds of inference on, imported into an empty
+   database with the id_spec that goes with the keys.  Domain (all checkable on the input): the generated line keys
+   <featuretype>_<n> (= assign fs []), the transcript ids and the gene ids are three disjoint sets, and a transcript has one
+   gene.  Then, if the import succeeds:
+   - every line is stored once, in order, under its generated key, followed by the derived features (nothing else);
+   - keys are unique;
+   - every transcript id owning at least one subfeature line is retrievable and IS the derived transcript: type
+     "transcript", both ids as attributes, spanning exactly [expected_extent] = minimum start .. maximum end of its
+     subfeature lines, on the seqid/strand of the first of them;
+   - every gene id owning at least one subfeature line likewise is the derived gene spanning all its subfeature lines. *)
+Theorem C03_import_end_to_end : forall call g strat force fs,
+  is_field_form (g_tkey g) = false -> is_field_form (g_gkey g) = false -> str_eqb (g_gkey g) (g_tkey g) = false ->
+  g_no_genes g = false /\ g_no_transcripts g = false ->
+  (forall f, In f fs -> ordinary f) ->
+  (forall f, In f fs -> exists t gn, first_val (g_tkey g) f = Some t /\ first_val (g_gkey g) f = Some gn /\ t <> gn) ->
+  (forall p f, In p (assign fs []) -> In f fs ->
+     first_val (g_tkey g) f <> Some (snd p) /\ first_val (g_gkey g) f <> Some (snd p)) ->
+  (forall f f' v, In f fs -> In f' fs -> first_val (g_tkey g) f = Some v -> first_val (g_gkey g) f' <> Some v) ->
+  (forall f f', In f fs -> In f' fs -> first_val (g_tkey g) f = first_val (g_tkey g) f' ->
+     first_val (g_gkey g) f = first_val (g_gkey g) f') ->
+  forall st', fs <> [] ->
+  import_gtf call g strat force (gtf_spec g) fs empty_st = Ok st' ->
+  exists ds,
+    s_rows st' = map place (assign fs []) ++ appended g ds /\
+    NoDup (map r_id (s_rows st')) /\
+    (forall t x, expected_extent g (g_tkey g) t fs = Some x ->
+       exists gn, (exists f, In f fs /\ first_val (g_tkey g) f = Some t /\ first_val (g_gkey g) f = Some gn) /\
+                  find_id t (s_rows st') = Some (set_bin (set_id t (t_row g t gn x)))) /\
+    (forall gn x, expected_extent g (g_gkey g) gn fs = Some x ->
+       find_id gn (s_rows st') = Some (set_bin (set_id gn (g_row g gn x)))).
+Proof. exact l_import_gtf_end_to_end. Qed.
+Print Assumptions C03_import_end_to_end.
